@@ -119,6 +119,7 @@ type thread struct {
 	cc      net.Conn
 	rd      *bufio.Reader
 	held    *heldWorker
+	incAt   int // connection thread: incarnation of the group on its endpoint when the worker accepted it
 	loopEnd bool
 }
 
@@ -212,6 +213,7 @@ type world struct {
 	stall    map[int]chan struct{} // kind http: members whose CreateConnFn waits for this channel
 	dialed   []int                 // kind http: members whose CreateConnFn has been called, in order
 	accepts  int32                 // connections returned by members' Accept (atomic)
+	inc      map[string]int        // per endpoint: how many times a group on it has lost its last member
 	manual   bool                  // members' Accept is called by the choreography, not by a loop
 	parked   []int                 // join threads parked at the after_lookup gate, in arrival order
 	obs      *Obs
@@ -263,7 +265,7 @@ const blockWait = 80 * time.Millisecond
 func rkey(r []int) string { return fmt.Sprint(r) }
 
 func newWorld(c *Case) (*world, error) {
-	w := &world{c: c, env: map[string]bool{}, envL: map[string]net.Listener{}}
+	w := &world{c: c, env: map[string]bool{}, envL: map[string]net.Listener{}, inc: map[string]int{}}
 	for range c.Reqs {
 		w.th = append(w.th, &thread{arrived: make(chan struct{}, 1), release: make(chan struct{}), done: make(chan joinRes, 1)})
 	}
@@ -648,6 +650,10 @@ func (w *world) stepLeave(tid int, t *thread, r *Req) error {
 	}
 	j.st, j.val = sLeft, 0
 	t.st = sDone
+	if !w.liveMemberOn(j.res) {
+		// that was the last member: whatever group appears on this endpoint later is another group
+		w.inc[rkey(j.res)]++
+	}
 	w.took(tid)
 	if w.c.Kind != 1 {
 		w.took(tid) // close(closeCh), then CloseListener
@@ -745,12 +751,14 @@ func (w *world) stepConn(tid int, t *thread, r *Req, o *Obs) error {
 		case h := <-ch:
 			t.held = h
 			t.st = sHeld
+			t.incAt = w.inc[rkey(r.R)]
 		case <-time.After(1200 * time.Millisecond):
 			unwait()
 			select {
 			case h := <-ch:
 				t.held = h
 				t.st = sHeld
+				t.incAt = w.inc[rkey(r.R)]
 			default:
 				// nobody accepts on the real listener
 				t.st = sCStranded
@@ -769,7 +777,11 @@ func (w *world) stepConn(tid int, t *thread, r *Req, o *Obs) error {
 			// "closed without a label" and "nothing within the deadline" are the same observation)
 			t.st = sCStranded
 			r.Who = -1
-			if w.liveMemberOn(r.R) {
+			// lost while a member is live: a member of the SAME group that accepted the connection (if that
+			// group lost its last member in between, its endpoint went away with the connection in hand; a
+			// group created on the endpoint afterwards is another group — the model's c_lost looks at the
+			// member list of the object that holds the connection, too)
+			if w.liveMemberOn(r.R) && w.inc[rkey(r.R)] == t.incAt {
 				o.LostLive = true
 			}
 		} else {
